@@ -53,12 +53,34 @@ func (d D) Int(lo, hi int, label string) int {
 	return rapid.IntRange(lo, hi).Draw(d.T, label)
 }
 
+// rapid's integer generators are deliberately biased towards small values (a range draw of 0..39
+// yields 0 about 11% of the time), which is wrong for probabilities and categorical choices. Uni and
+// OneIn therefore spread a raw 32-bit draw with a multiplicative hash; the all-zero draw (what rapid
+// shrinks towards) maps to "first choice" / "no".
+func spread(x uint32) uint64 { return (uint64(x) * 0x9E3779B97F4A7C15) >> 29 }
+
+// Uni draws an index 0..n-1 (approximately) uniformly.
+func (d D) Uni(n int, label string) int {
+	if d.T == nil || n <= 1 {
+		return 0
+	}
+	x := rapid.Uint32().Draw(d.T, label)
+	if x == 0 {
+		return 0
+	}
+	return int(spread(x) % uint64(n))
+}
+
 // OneIn is true with probability 1/n (never when n <= 0).
 func (d D) OneIn(n int, label string) bool {
 	if d.T == nil || n <= 0 {
 		return false
 	}
-	return rapid.IntRange(0, n-1).Draw(d.T, label) == 0
+	if n == 1 {
+		return true
+	}
+	x := rapid.Uint32().Draw(d.T, label)
+	return x != 0 && spread(x)%uint64(n) == 0
 }
 func (d D) Bool(label string) bool { return d.T != nil && rapid.Bool().Draw(d.T, label) }
 
@@ -144,6 +166,7 @@ type Profile struct {
 	SendFail   int      // hand-off is refused / errors with probability 2/SendFail (split evenly)
 	SendLose   int      // sender submission itself fails before/after with probability 1/SendLose
 	Crash      int      // the kernel crashes at a flush position with probability 1/Crash
+	MaxCrashes int      // at most this many crashes per case (default 2)
 	Permute    bool     // permute pending submissions
 	ApiSize    int      // api queue size (default 1000)
 	Targets    map[string]*receiver.Recv
@@ -401,14 +424,30 @@ func (s *Sim) Quiet() bool {
 	return s.InFlight() == 0 && len(s.pending) == 0 && len(s.cqes) == 0
 }
 
-// Drain ticks without any further scheduling freedom or faults until the requests in flight are answered.
-func (s *Sim) Drain(max int) {
+// Drain ticks without any further scheduling freedom or faults until the requests in flight are
+// answered. It stops when nothing moved for `idle` consecutive ticks (a wedge) or after a generous cap.
+func (s *Sim) Drain(idle int) {
 	saved := s.D
 	s.D = D{}
-	for i := 0; i < max && !s.Quiet(); i++ {
+	still := 0
+	for i := 0; i < 20000 && !s.Quiet() && still < idle; i++ {
+		before := fmt.Sprint(s.InFlight(), len(s.pending), len(s.cqes), s.seq)
 		s.Tick()
+		if fmt.Sprint(s.InFlight(), len(s.pending), len(s.cqes), s.seq) == before {
+			still++
+		} else {
+			still = 0
+		}
 	}
 	s.D = saved
+}
+
+func (s *Sim) crashAllowed() bool {
+	m := s.Prof.MaxCrashes
+	if m == 0 {
+		m = 2
+	}
+	return len(s.Restarts) < m
 }
 
 // Crash drops the kernel with everything in flight and boots a new one on the same database file.
@@ -521,7 +560,7 @@ func (s *Sim) Flush(t int64) {
 			} else if cqes[i].Error == nil && !reflect.DeepEqual(cqes[i].Completion.Store.Results, sc[0].Completion.Store.Results) {
 				s.Problems = append(s.Problems, fmt.Sprintf("C16 batch vs single execution disagree on results for %s [%s]", x.sqe.Id, cmdNames(tx.Commands)))
 			}
-			rec := &TxRec{Seq: s.event("commit"), Idx: len(s.Txs), ReqId: x.sqe.Id, Name: x.sqe.Submission.Tags["name"], Bg: isBgId(x.sqe.Id), Inc: s.Inc,
+			rec := &TxRec{Seq: s.event("commit"), Idx: len(s.Txs), ReqId: s.instId(x.sqe.Id), Name: x.sqe.Submission.Tags["name"], Bg: isBgId(x.sqe.Id), Inc: s.Inc,
 				Dispatch: x.dispatch, Tick: t, Batch: s.batch, Cmds: tx.Commands, ReadOnly: ro, Pre: pre, Post: post}
 			if cqes[i].Error == nil {
 				rec.Results = cqes[i].Completion.Store.Results
@@ -542,7 +581,7 @@ func (s *Sim) Flush(t int64) {
 	}
 	crashed := false
 	for i, x := range p {
-		if d.OneIn(s.Prof.Crash, "crash") {
+		if s.crashAllowed() && d.OneIn(s.Prof.Crash, "crash") {
 			flushBatch()
 			s.checkShadow()
 			// everything not yet executed is lost together with the kernel
@@ -601,7 +640,7 @@ func (s *Sim) checkShadow() {
 func (s *Sim) send(x *pend, t int64) {
 	d := s.D
 	sub := x.sqe.Submission.Sender
-	rec := &SendRec{Seq: s.event("send"), Tick: t, ReqId: x.sqe.Id, Sub: sub, SnapIdx: s.CurSnap()}
+	rec := &SendRec{Seq: s.event("send"), Tick: t, ReqId: s.instId(x.sqe.Id), Sub: sub, SnapIdx: s.CurSnap()}
 	s.Sends = append(s.Sends, rec)
 	if d.OneIn(s.Prof.SendLose, "sendlose") {
 		rec.Outcome = "dropped"
@@ -635,6 +674,15 @@ func (s *Sim) send(x *pend, t int64) {
 		outcome = "error" // no transport reached (unknown receiver / plugin)
 	}
 	rec.Outcome = outcome
+}
+
+// instId makes background instance ids unique across kernel incarnations (after a crash a new
+// instance may start at the same tick and would otherwise reuse "<name>:<tick>").
+func (s *Sim) instId(id string) string {
+	if s.Inc > 0 && isBgId(id) {
+		return fmt.Sprintf("%s#%d", id, s.Inc)
+	}
+	return id
 }
 
 func isBgId(id string) bool {
